@@ -290,22 +290,19 @@ Fixpoint poll_add (fuel : nat) (sid : nat) (s : sys) : list (sys * ares) :=
       end
   end.
 
-Fixpoint poll_drop (fuel : nat) (sid : nat) (s : sys) : list (sys * ares) :=
-  match fuel with
-  | O => []
-  | S f =>
-      match lookup (drops s) sid with
+(* ---- one poll of an async_drop future (after the receiver is gone): its remove_match call is task n of the model.  It may be
+   left waiting for `subscriptions`, or (last reference) for msg_senders, or finish ---- *)
+Definition poll_task (n : nat) (s : sys) : list (sys * ares) :=
+  (s, APending) ::
+  match nth_error (tasks s) n with
+  | Some (_, R0) =>
+      match st (LTaskSubs n) s with
+      | Some s1 => if Nat.ltb (length (tasks s1)) (length (tasks s)) then [(s1, AOk 0)]
+                   else (s1, APending) :: match st (LTaskSender n) s1 with Some s2 => [(s2, AOk 0)] | None => [] end
       | None => []
-      | Some pc =>
-          (s, APending) ::
-          match pc with
-          | R0 => match st (LDropSubs sid) s with
-                  | Some s1 => match lookup (drops s1) sid with Some _ => poll_drop f sid s1 | None => [(s1, AOk 0)] end
-                  | None => []
-                  end
-          | R1 _ => match st (LDropSender sid) s with Some s1 => [(s1, AOk 0)] | None => [] end
-          end
       end
+  | Some (_, R1 _) => match st (LTaskSender n) s with Some s1 => [(s1, AOk 0)] | None => [] end
+  | None => []
   end.
 
 (* ---- a fingerprint, to merge states that are the same ---- *)
@@ -493,23 +490,33 @@ Definition successors (order : list skey) (next : nat) (e : oev) (s : sys) : lis
   | OADrop sid r =>
       match live s sid, r with
       | None, ASkip => [s]
-      | Some x, ASkip => if Nat.ltb (length (drops s)) 2 then [] else [s]
+      | Some x, ASkip => [s]                 (* the harness keeps at most two async drops in flight; the model does not tell them
+                                                from queued removals, so a skipped step is taken at its word *)
       | Some x, _ =>
-          if negb (Nat.ltb (length (drops s)) 2) then [] else
           match st (LDropStart sid) s with
           | Some s1 => match s_rule x with
                        | None => match r with AOk _ => [s1] | _ => [] end
-                       | Some _ => keep ares_eqb r (poll_drop 3 sid s1)
+                       | Some _ => keep ares_eqb r (poll_task (length (tasks s1) - 1) s1)
                        end
           | None => []
           end
       | _, _ => []
       end
   | OADropPoll sid r =>
-      match lookup (drops s) sid, r with
-      | None, ASkip => [s]
-      | Some _, ASkip => []
-      | _, _ => keep ares_eqb r (poll_drop 3 sid s)
+      (* the remove_match of an async drop is one of the calls for the rule of the dropped stream; calls for the same rule are
+         interchangeable *)
+      match r with
+      | ASkip => [s]
+      | _ => match lookup (dead s) sid with
+             | Some x => match s_rule x with
+                         | Some rr => flat_map (fun n => match nth_error (tasks s) n with
+                                                         | Some (r', _) => if Nat.eqb r' rr then keep ares_eqb r (poll_task n s) else []
+                                                         | None => []
+                                                         end) (seq 0 (length (tasks s)))
+                         | None => []
+                         end
+             | None => []
+             end
       end
   | OClone sid sid2 ok =>
       match st (LClone sid sid2) s with
@@ -621,8 +628,7 @@ Definition run_case (line : bytes) : outp :=
                         else if negb (snap_ok s0 init) then B "initial-state-differs"
                         else replay rs 0 h (order_of s0 []) 0 [init] in
                       let spec := spec_check rs (canon_of rs) h in
-                      let cls := if has_step "c"%byte steps then B "clone_uncounted"
-                                 else if has_step "x"%byte steps then B "async_drop_deadlock" else dash in
+                      let cls := if has_step "c"%byte steps then B "clone_uncounted" else dash in
                       {| o_model := model; o_spec := spec; o_class := cls |}
                   | None => bad_case
                   end
